@@ -14,7 +14,7 @@ def run(tier, seed):
     # failing patches applied with -R / -p0 / -p2: rejects carry the hunks as written in the patch file, names stripped
     extra += [s for s in tq.with_patch_options([x for x in tq.enumerate_series(2, 1, allow_after_failure=1) if any(not p.ok() for p in x)], 2) if any(p.reverse or p.strip != 1 for p in s)]
     seen, uniq = set(), []
-    for s in space + extra:
+    for s in space + extra + [x for x in tq.special_series(m0) if any(not p.ok() for p in x)]:
         k = tq.describe_series(s)
         if k not in seen:
             seen.add(k)
